@@ -336,10 +336,19 @@ static std::string ret_json(Context& ctx)
   return o + ",\"ret\":" + jstr(d);
 }
 
-static Parser::StreamReader * make_reader(const std::string& spec, const std::string& text)
+/* Parser::StreamReader has no virtual destructor: keep the concrete types */
+struct ReaderBox
+{
+  StringReader * s = nullptr;
+  FragReader * f = nullptr;
+  ~ReaderBox() { delete s; delete f; }
+  Parser::StreamReader& get() { if (s) return *s; return *f; }
+};
+
+static void make_reader(ReaderBox& box, const std::string& spec, const std::string& text)
 {
   /* spec: "s" StringReader | "f:<tail>:<n1,n2,...>" FragReader */
-  if (spec == "s") return new StringReader(text);
+  if (spec == "s") { box.s = new StringReader(text); return; }
   std::vector<int> sizes; int tail = 0;
   size_t p = spec.find(':', 2);
   tail = atoi(spec.substr(2, p == std::string::npos ? std::string::npos : p - 2).c_str());
@@ -349,21 +358,20 @@ static Parser::StreamReader * make_reader(const std::string& spec, const std::st
     size_t i = 0;
     while (i < l.size()) { size_t j = l.find(',', i); if (j == std::string::npos) j = l.size(); if (j > i) sizes.push_back(atoi(l.substr(i, j - i).c_str())); i = j + 1; }
   }
-  return new FragReader(text, sizes, tail);
+  box.f = new FragReader(text, sizes, tail);
 }
 
 /* parse + run with the C++ interface */
 static std::string do_run_cpp(Context& ctx, const std::string& text, const std::string& rspec, bool keep, int eslot)
 {
-  Parser::StreamReader * rd = make_reader(rspec, text);
+  ReaderBox rd; make_reader(rd, rspec, text);
   Executable * x = nullptr;
   std::string out;
-  try { x = Parser::parse(ctx, *rd); }
+  try { x = Parser::parse(ctx, rd.get()); }
   catch (ParseError& pe) { out = perr_json(pe); }
   catch (RuntimeError& re) { out = "{\"r\":\"foreign\",\"type\":\"RuntimeError-at-parse\",\"msg\":" + jstr(re.what()) + "}"; }
   catch (std::exception& e) { out = foreign_json(e.what(), typeid(e).name()); }
   catch (...) { out = foreign_json("", "unknown"); }
-  delete rd;
   if (!x) { if (out.empty()) out = "{\"r\":\"perr\",\"no\":-1,\"msg\":\"null executable\"}"; return out; }
   if (keep) { g_exe[eslot] = x; g_exe_ctx[eslot] = &ctx; return "{\"r\":\"ok\"}"; }
   try { x->run(); out = "{\"r\":\"ok\"" + ret_json(ctx) + "}"; }
@@ -551,8 +559,8 @@ static std::string do_funcs(Context& ctx)
 
 static std::string do_tokens(Context& ctx, const std::string& text, const std::string& rspec)
 {
-  Parser::StreamReader * rd = make_reader(rspec, text);
-  Parser * p = Parser::createInteractiveParser(ctx, *rd);
+  ReaderBox rd; make_reader(rd, rspec, text);
+  Parser * p = Parser::createInteractiveParser(ctx, rd.get());
   std::string out = "{\"r\":\"ok\",\"toks\":[";
   bool first = true;
   int n = 0;
@@ -571,7 +579,6 @@ static std::string do_tokens(Context& ctx, const std::string& text, const std::s
   catch (ParseError&) { }
   out += "]}";
   delete p;
-  delete rd;
   return out;
 }
 
@@ -796,8 +803,19 @@ static std::string run_op(const std::vector<std::string>& a)
   if (op == "clearperm") { PluginManager::instance().clearPermissions(); return "{\"r\":\"ok\"}"; }
   if (op == "leakcheck")
   {
+    off_t before = lseek(2, 0, SEEK_END);
     int l = __lsan_do_recoverable_leak_check();
-    return std::string("{\"r\":\"ok\",\"leak\":") + (l ? "1" : "0") + "}";
+    std::string rep;
+    if (l && before >= 0)
+    {
+      off_t end = lseek(2, 0, SEEK_END);
+      if (end > before)
+      {
+        rep.resize(std::min<off_t>(end - before, 6000));
+        if (pread(2, &rep[0], rep.size(), before) < 0) rep.clear();
+      }
+    }
+    return std::string("{\"r\":\"ok\",\"leak\":") + (l ? "1" : "0") + ",\"report\":" + jstr(rep) + "}";
   }
   return "{\"r\":\"badop\",\"op\":" + jstr(op) + "}";
 }
@@ -875,6 +893,9 @@ int main(int argc, char ** argv)
       dup2(efd, 2);
       int nfd = open("/dev/null", O_RDONLY);
       dup2(nfd, 0);
+      /* builtins such as input() write their prompt to the process stdout: keep it out of the result stream */
+      int ofd = open("/dev/null", O_WRONLY);
+      dup2(ofd, 1);
       struct rlimit rl = { 0, 0 };
       setrlimit(RLIMIT_CORE, &rl);
       child_main(cases, next, pfd[1], cpu_ms);
